@@ -2,7 +2,9 @@
 from __future__ import annotations
 
 import datetime as _dt
+import math
 import random
+from fractions import Fraction
 
 from vlib import tzcases as T
 from vlib import zones
@@ -12,14 +14,82 @@ PROPS = "Props/C01.v"
 RULE = ("enumerated: for ordered zone pairs (quick: 60 destination zones incl. the structurally odd ones, sources rotating; thorough: every zone as destination) every "
         "offset-changing transition of the destination (and of the source) probed at {-1us, 0, +1us, +-1s, +-|shift|} around the transition instant, via in_timezone / in_tz / "
         "astimezone / Timezone.convert; fixed offsets -23:59..+23:59; A->B->C chains; from_timestamp / int_timestamp / timestamp() round trips (integers and floats); "
+        "FLOAT timestamps (floats as float.hex(), results as exact integers): tsf-boundary = float timestamps of +-(2^k s +- j us), k <= 33, in every zone kind; tsf-transition = every probed tz transition +-{0, 1 us, 0.5 s, 1 s}; "
+        "tsf-random; tsf-beyond-2-33 = 2^33 s .. year 9999 and year 1 .. -2^33 s; tsf-arbitrary-double = neighbours of microsecond values, exact halves n + j/128, carries 0.9999995.., -0.0, subnormals; tsf-range-edge = nan, inf, year 0 / 10000; "
         "instance() of aware natives of the kinds zoneinfo, pytz, dateutil, datetime.timezone, pendulum; random instants in years 2..9998. "
         "non-trivial = distinct (function, zones, instant).")
 EXHAUSTIVE = {"quick": False, "thorough": True}
 TRUSTED = ["zoneinfo.ZoneInfo and the tzdata tables are the specification side; Spec/Zone.v models zoneinfo's lookups (validated at every probe by C02's zone-spec stream and here by the oracle)",
            "CPython's datetime.astimezone protocol ((self - utcoffset).replace(tzinfo=tz) then tz.fromutc) is modelled in Model/TzConvert.v astz",
-           "pytz / dateutil tzinfo objects are instantiated for real in the harness; in the model they are a source descriptor (wall, fold, utcoffset)"]
-ASSUMPTIONS = ["float timestamps: only the oracle checks timestamp()/from_timestamp(float) (exact below 2^33 s); the theorem covers integer timestamps"]
+           "pytz / dateutil tzinfo objects are instantiated for real in the harness; in the model they are a source descriptor (wall, fold, utcoffset)",
+           "Model/FloatRoutes.v from_timestamp_float / timestamp_float over Coq's SpecFloat binary64 (Spec/TdFloat.v), tied to /repo by the tsf-* correspondence streams (floats travel as exact (mantissa, exponent), both backends)",
+           "the float theorems (utcfromtimestamp_float_exact, timestamp_inverts_from_timestamp_float*, from_timestamp_float_*) are proved with Flocq and depend on the axioms of Coq's classical real numbers as printed by "
+           "Print Assumptions: ClassicalDedekindReals.sig_forall_dec, ClassicalDedekindReals.sig_not_dec, FunctionalExtensionality.functional_extensionality_dep, Classical_Prop.classic (no axiom of our own)"]
+ASSUMPTIONS = ["float timestamps: from_timestamp(<float>) / timestamp() are modelled over SpecFloat (Model/FloatRoutes.v: CPython's pytime_double_to_denominator with ROUND_HALF_EVEN and "
+               "datetime.timestamp() = (self - EPOCH).total_seconds()); the theorems cover |instant| < 2^33 s, the region up to year 9999 is covered by kernel evaluation on a family and by the tsf-beyond-2-33 stream"]
 KINDS = ["zoneinfo", "pytz", "dateutil", "stdtz", "pendulum"]
+B33 = 2 ** 33 * 10 ** 6      # microseconds in 2^33 s: below it total_seconds() / from_timestamp(float) are exact to the microsecond (theorem)
+TS_MIN_US = -T.EPOCH_US       # 0001-01-01T00:00:00Z as a Unix timestamp in microseconds
+TS_MAX_US = T.MAX_WALL - T.EPOCH_US
+
+
+# ----------------------------------------------------------------------------- floats on the wire: (tag, mantissa, exponent) = TdFloat.sf_code
+def fcode(x):
+    x = float(x)
+    if x != x:
+        return [6, 0, 0]
+    if x == math.inf:
+        return [4, 0, 0]
+    if x == -math.inf:
+        return [5, 0, 0]
+    if x == 0:
+        return [1, 0, 0] if math.copysign(1.0, x) < 0 else [0, 0, 0]
+    m, e = math.frexp(abs(x))
+    m = int(m * 2 ** 53)
+    e -= 53
+    if e < -1074:
+        m >>= (-1074 - e)
+        e = -1074
+    return [3 if x < 0 else 2, m, e]
+
+
+def _ts_boundary_us():
+    """Instants (integer microseconds since the Unix epoch) whose float timestamps are boundary cases: +-(2^k s +- j us), k <= 33."""
+    out = set()
+    for k in range(0, 34):
+        for j in (0, 1, -1, 2, 499999, 500000, 500001, -500000, 999999, -999999):
+            out.add(2 ** k * T.MEG + j)
+    for u in (1, 2, 3, 499999, 500000, 500001, 999998, 999999, 1000000, 1000001, 1500000, 59999999, 60000000):
+        out.add(u)
+    out = {n for n in out if 0 < n < B33}
+    return sorted(out | {-n for n in out} | {0})
+
+
+def _ts_floats(rnd, n_rand):
+    """Arbitrary doubles as float.hex(): exact halves of a microsecond (n + j/128), neighbours of microsecond values, carries 0.9999995.., tiny values."""
+    xs = []
+    for N in _ts_boundary_us()[::5]:
+        x = N / T.MEG
+        xs += [math.nextafter(x, math.inf), math.nextafter(x, -math.inf)]
+    for base in (0, 1, 59, 2 ** 20, 2 ** 31 - 1, 2 ** 31, 2 ** 32, 2 ** 33 - 1, 2 ** 33, 2 ** 34, 10 ** 10, 2 ** 37):
+        for j in (1, 3, 63, 64, 65, 127):
+            xs += [base + j / 128.0, -(base + j / 128.0)]
+    xs += [0.0, -0.0, 1e-7, -1e-7, 4.9e-7, 5e-7, -5e-7, 5.1e-7, 1.5e-6, -1.5e-6, 2.5e-6, 0.9999994, 0.9999995, 0.9999996, 0.99999951, -0.9999996, -0.9999995,
+           -0.0000004, 5e-324, -5e-324, 1.9999995, 1.99999951, 2 ** 31 - 0.0000004, 0.1, 0.3, 1 / 3.0, -2 / 3.0, 1e9 + 0.1, 1e10 + 0.7, 253402300799.999, 253402300799.9999,
+           -62135596800.0, -62135596799.5, -62135596800.000001]
+    for _ in range(n_rand):
+        k = rnd.randrange(5)
+        if k == 0:
+            xs.append(rnd.uniform(-100, 100))
+        elif k == 1:
+            xs.append(rnd.uniform(-6e10, 2.5e11))
+        elif k == 2:
+            xs.append(rnd.choice([1, -1]) * math.ldexp(rnd.random() + 0.5, rnd.randrange(-30, 36)))
+        elif k == 3:
+            xs.append(rnd.randrange(-2 ** 35, 2 ** 37) + rnd.randrange(0, 128) / 128.0)
+        else:
+            xs.append(rnd.randrange(-6 * 10 ** 16, 25 * 10 ** 16) / 10 ** 6)
+    return [float(x).hex() for x in xs]
 
 
 def _instants_around(tt, o_pre, o_post):
@@ -73,13 +143,62 @@ def cases(tier, seed):
         if rnd.random() < 0.1:
             n = U // T.MEG - T.EPOCH_S
             if abs(n) < 2 ** 33:
-                out.append({"stream": "timestamp-float", "fn": "from_ts_float", "args": [b, U - T.EPOCH_US]})
+                out.append({"stream": "timestamp-float", "fn": "ts_float", "args": [b, ((U - T.EPOCH_US) / T.MEG).hex()]})
         if rnd.random() < 0.2 and isinstance(b, str):
             out.append({"stream": "instance", "fn": "instance", "args": [KINDS[rnd.randrange(5)], b, U]})
     # out-of-range conversions must raise, never wrap
     for z in ("Pacific/Kiritimati", "Pacific/Pago_Pago", 50000, -50000):
         for U in (3600 * T.MEG, T.MAX_WALL - 3600 * T.MEG):
             out.append({"stream": "range-edge", "fn": "in_tz", "args": ["UTC", z, U, "in_timezone"]})
+    out += _ts_float_cases(tier, rnd, dsts, fixed)
+    return out
+
+
+def _ts_float_cases(tier, rnd, dsts, fixed):
+    """from_timestamp(<float>) and timestamp() / float_timestamp (model: FloatRoutes.from_timestamp_float / timestamp_float)."""
+    out = []
+    specs = ["UTC"] + list(dsts[:20] if tier == "quick" else dsts) + fixed
+
+    def spec_at(i):
+        return specs[i % len(specs)]
+    i = 0
+    # float timestamps of boundary instants, every zone kind
+    for N in _ts_boundary_us():
+        for rep in range(2 if tier == "quick" else 5):
+            out.append({"stream": "tsf-boundary", "fn": "ts_float", "args": [spec_at(i), (N / T.MEG).hex()]})
+            i += 1
+    # around tz transitions: the transition instant +- {0, 1 us, 1 s, 0.5 s} as a float timestamp
+    for name in (dsts if tier == "thorough" else dsts[:25]):
+        for (tt, o_pre, o_post) in T.transition_probes(name, rnd, per_zone=None if tier == "thorough" else 5):
+            for d in (0, 1, -1, T.MEG, -T.MEG, 500000, -500000):
+                N = tt * T.MEG + d
+                if TS_MIN_US + T.US_DAY * 400 < N < TS_MAX_US - T.US_DAY * 400:
+                    out.append({"stream": "tsf-transition", "fn": "ts_float", "args": [name, (N / T.MEG).hex()]})
+    # random instants below 2^33 s
+    for _ in range(2500 if tier == "quick" else 40000):
+        N = rnd.choice([1, -1]) * (int(math.ldexp(rnd.random() + 0.5, rnd.randrange(0, 53))) % B33)
+        out.append({"stream": "tsf-random", "fn": "ts_float", "args": [spec_at(rnd.randrange(10 ** 6)), (N / T.MEG).hex()]})
+    # 2^33 s .. year 9999 and year 1 .. -2^33 s: the doubles are more than 1 us apart
+    for _ in range(1200 if tier == "quick" else 20000):
+        if rnd.random() < 0.7:
+            N = rnd.randrange(B33, TS_MAX_US - T.US_DAY * 400)
+        else:
+            N = rnd.randrange(TS_MIN_US + T.US_DAY * 400, -B33)
+        out.append({"stream": "tsf-beyond-2-33", "fn": "ts_float", "args": [spec_at(rnd.randrange(10 ** 6)), (N / T.MEG).hex()]})
+    for k in range(33, 38):
+        for j in (0, 1, 3, 7, 500001, -1, -3):
+            N = 2 ** k * T.MEG + j
+            if B33 <= N < TS_MAX_US:
+                out.append({"stream": "tsf-beyond-2-33", "fn": "ts_float", "args": [spec_at(i), (N / T.MEG).hex()]})
+                i += 1
+    # arbitrary doubles
+    for hx in _ts_floats(rnd, 600 if tier == "quick" else 10000):
+        out.append({"stream": "tsf-arbitrary-double", "fn": "ts_float", "args": [spec_at(i), hx]})
+        i += 1
+    # outside years 1..9999 / not a number: must raise
+    for hx in ("nan", "inf", "-inf", (253402300800.0).hex(), (253402300799.9999996).hex(), (-62135596801.0).hex(), (1e16).hex(), (-1e16).hex(), (1e300).hex(), (-1e300).hex()):
+        for spec in ("UTC", "Europe/Paris", 3600):
+            out.append({"stream": "tsf-range-edge", "fn": "ts_float", "args": [spec, hx]})
     return out
 
 
@@ -138,6 +257,13 @@ def impl_run(cases):
                 tz = T.pzone(spec)
                 r = pendulum.from_timestamp(x, tz=tz)
                 out.append(T.dt_result(r, tz.name) + [int(r.timestamp() == x), int(r.float_timestamp == x)])
+            elif fn == "ts_float":
+                spec, hx = a
+                t = float.fromhex(hx)
+                tz = T.pzone(spec)
+                r = pendulum.from_timestamp(t, tz=tz)
+                ts = r.timestamp()
+                out.append(T.dt_result(r, tz.name) + fcode(ts) + [int(r.float_timestamp.hex() == ts.hex()), r.int_timestamp])
             elif fn == "instance":
                 kind, name, U = a
                 W, fold, off = T.ref_render(T.ref_zone(name), U)
@@ -197,6 +323,12 @@ def model_calls(c, backend):
         isutc = 1 if spec == "UTC" else 0
         enc = T.zone_enc(spec, n - 180000, n + 180000)
         return [("from_timestamp_int", enc + [isutc, n])]
+    if fn == "ts_float":
+        spec, hx = a
+        t = float.fromhex(hx)
+        n = int(min(max(t, T.zones.MIN_T), T.zones.MAX_T)) if t == t else 0
+        isutc = 1 if spec == "UTC" else 0
+        return [("from_timestamp_float", T.zone_enc(spec, n - 180000, n + 180000) + [isutc] + fcode(t))]
     if fn == "instance":
         kind, name, U = a
         if kind in ("pytz", "zoneinfo", "pendulum"):
@@ -221,6 +353,10 @@ def same(c, m, r):
         return m == r[:4]
     if fn == "instance":
         return m == r[:4]
+    if fn == "ts_float":
+        if r[0] == 1 or m[0] == 1:
+            return m[:2] == r[:2]
+        return m == r[:7]       # wall, fold, offset and the bits of timestamp()
     return True
 
 
@@ -262,6 +398,8 @@ def oracle(c, backend, r):
         if r[1] != W or r[3] != off or r[4] != 1 or r[5] != 1:
             return f"from_timestamp({us}/1e6, {spec}): got {r}; expected wall {W} offset {off} and timestamp() to invert it"
         return None
+    if fn == "ts_float":
+        return _ts_float_oracle(a[0], a[1], r)
     if fn == "instance":
         kind, name, U = a
         if r == [5]:
@@ -273,6 +411,42 @@ def oracle(c, backend, r):
         if r[4] != 1:
             return f"instance() of an aware {kind} datetime in {name} at instant {U} changed the instant (source offset {r[6]}, result offset {r[3]})"
         return None
+    return None
+
+
+def _ts_float_oracle(spec, hx, r):
+    """from_timestamp(t) denotes the instant of the double t to the microsecond (t read EXACTLY, rounded half-even), rendered by the tz database;
+    timestamp() / float_timestamp return the double nearest to that instant and give back t whenever t is the timestamp of a whole microsecond."""
+    t = float.fromhex(hx)
+    if t != t or t in (math.inf, -math.inf):
+        return None if r[0] == 1 else f"from_timestamp({hx}) must raise, got {r}"
+    F = Fraction(t) * T.MEG
+    M = round(F)                                  # Fraction.__round__ is half-even
+    if not (TS_MIN_US + 2 <= M <= TS_MAX_US - 2):
+        if M < TS_MIN_US - 2 or M > TS_MAX_US + 2:
+            return None if r[0] == 1 else f"from_timestamp({hx}) is outside years 1..9999 and must raise, got {r}"
+        return None
+    W, fold, off = T.ref_render(T.ref_zone(spec), M + T.EPOCH_US)
+    if not (0 <= W <= T.MAX_WALL):
+        return None if r[0] == 1 else f"from_timestamp({hx}, {spec}): local result outside years 1..9999 must raise, got {r}"
+    if r[0] != 0:
+        return f"from_timestamp({hx}, {spec}) raised {r}, expected instant {M} us"
+    got = r[1] - r[3] * T.MEG - T.EPOCH_US      # instant of the result, microseconds since the Unix epoch
+    us_valued = (M / T.MEG == t)                # t is the float timestamp of the whole microsecond M
+    near_half = abs(abs(F - M) - Fraction(1, 2)) < Fraction(1, 2 ** 20) and abs(F - M) != Fraction(1, 2)
+    if got != M and not (near_half and abs(got - M) == 1):
+        return (f"from_timestamp({hx} = {t!r}, {spec}): instant {got} us, but the double denotes {M} us to the microsecond (off by {got - M}); "
+                f"result wall {T.fields_of(r[1])} offset {r[3]}")
+    if got == M and (r[1] != W or r[3] != off or (spec != "UTC" and r[2] != fold)):
+        return f"from_timestamp({hx}, {spec}): fields {r[1:4]} are not the tz database's rendering {[W, fold, off]} of instant {M} us"
+    if r[4:7] != fcode(got / T.MEG):
+        return f"timestamp() of the result of from_timestamp({hx}, {spec}) is not (instant - epoch).total_seconds(): got {r[4:7]}, expected {fcode(got / T.MEG)}"
+    if us_valued and r[4:7] != fcode(t if t != 0 else 0.0):     # -0.0 == 0.0: timestamp() returns +0.0
+        return f"timestamp() does not invert from_timestamp({hx} = {t!r}, {spec}): got {r[4:7]} expected {fcode(t)}"
+    if r[7] != 1:
+        return f"float_timestamp differs from timestamp() for from_timestamp({hx}, {spec})"
+    if us_valued and abs(M) < B33 and M % T.MEG == 0 and r[8] != M // T.MEG:
+        return f"int_timestamp {r[8]} does not invert from_timestamp({hx}, {spec})"
     return None
 
 
@@ -289,11 +463,15 @@ def known(c, backend, r):
     return None
 
 
-LEVEL_TEXT = ("Machine-checked Coq theorems for EVERY well-formed tz table and every instant: the PEP 495 round trip render/inst, conversion keeps the instant exactly and yields the "
+LEVEL_TEXT = ("Machine-checked Coq theorems for EVERY well-formed tz table and every instant, integer AND float timestamps. Float: for every instant N (microseconds, |N| < 2^33 s) utcfromtimestamp(N / 10**6) is exactly N "
+              "(proved with Flocq), from_timestamp(N / 10**6, tz) is the database rendering of EPOCH + N (same result and exceptions as the integer route on whole seconds) and timestamp() returns N / 10**6 again; beyond 2^33 s the "
+              "double no longer determines N (from_timestamp_float_beyond_2_33_refuted: the DateTime is the microsecond nearest to the double, timestamp() still inverts; kernel-evaluated family up to year 9999; not a failure of the property). "
+              "The PEP 495 round trip render/inst, conversion keeps the instant exactly and yields the "
               "database's fields, offset and fold, A->B->C = A->C, conversions outside years 1..9999 raise (never wrap), int_timestamp inverts from_timestamp for every integer, "
               "instance() keeps the instant whenever the source's offset is the zone's reading of (wall, fold); the pytz second-pass case is proved refuted (known finding). "
               "The hand model (Model/TzConvert.v) is tied to /repo by correspondence at every transition of the destination/source zones through four entry points, both backends.")
 DESIGN_REF = "DESIGN.md section 4 C01, section 3.2"
 LEVEL_NOTE = ("Trusted: Coq kernel+VM; Spec/Zone.v as a model of zoneinfo and of the tzdata tables (validated per probe against zoneinfo); Model/TzConvert.v hand model of the conversion glue "
-              "(correspondence); wf of real tables evaluated by C02, not proved; float timestamps only by oracle.")
-TECHNIQUE = "Coq proof by induction over transition tables + differential correspondence at every tz transition"
+              "(correspondence) and Model/FloatRoutes.v (float timestamps over SpecFloat, correspondence incl. arbitrary doubles); wf of real tables evaluated by C02, not proved; "
+              "the float theorems additionally depend on the standard-library axioms of the classical reals (ClassicalDedekindReals.sig_forall_dec, sig_not_dec, functional_extensionality_dep, Classical_Prop.classic) through Flocq.")
+TECHNIQUE = "Coq proof by induction over transition tables, Flocq real-number semantics of SpecFloat for float timestamps + differential correspondence at every tz transition"
